@@ -4,6 +4,9 @@
 # mean "the property's own clause fails on this input" for each property
 FAIL = {
     'C02': ('shape',),
+    'C01': ('sem', 'no-result'),
+    'C08': ('lex', 'grammar', 'accept'),
+    'C09': ('vars', 'free', 'leak'),
     'C03': ('sem', 'no-result'),
     'C04': ('sem', 'no-result'),
     'C05': ('sem', 'no-result'),
@@ -29,17 +32,34 @@ def bdd(parts, exhaustive=True):
                 rule='; '.join('%s: %s' % (p, BDD_RULE[p]) for p in parts))
 
 
+TEXT_RULE = {
+    'tok': 'exhaustive: all strings of length <=4 (thorough <=5) over a 22-character alphabet with one character per alternation/boundary of the tokenizer regex (letters, digit, quote, underscore, space, double quote, braces, < = > - ! & | ( [ , #, a non-ASCII letter, a non-ASCII digit, NUL); every keyword/symbol spelling alone and in all adjacent and spaced pairs; plus seeded token soups, spelling soups, random Unicode, mutated formulas, a third of them under a random ordering with sparse distinct ids',
+    'parse': 'exhaustive: every token sequence of length <=3 over the full 36-token alphabet and of length 4 (thorough: 5) over a 20-token reduced alphabet (thorough: length 4 over the full alphabet), rendered to text; plus seeded grammar-directed random formulas (all constructs, all spellings, random whitespace/comments), half of them with 1-3 token-level mutations (drop/insert/swap/replace)',
+    'eval': 'the same exhaustive token sequences evaluated (result diagram, vars, free_vars); the counting-constant boundary grid; plus seeded random formulas <= depth 4 over <=6 names with shadowing, binder-only names, monotone-by-construction nested/mixed fixed points, counting over compound operands, constants up to 2^64-1, a third of them under an API ordering with sparse distinct ids incl. unused names',
+    'evalc': 'counting grid: 5 comparisons x 10 constants (0..4, 2^63-2 .. 2^63, 2^64-2, 2^64-1) x 6 operand lists, 5x5 list-vs-list grid; plus seeded random formulas containing a counting comparison',
+    'evalfp': '23 hand-picked fixed-point formulas (identity, constants, divergent negation, chains through quantifiers, nested/mixed lfp-gfp, shadowing by quantifier and by inner fixed point, counting, ite); plus seeded random formulas containing lfp/gfp over 3 names, 3/4 monotone by construction, 1/4 arbitrary',
+}
+
+
+def text(parts, exhaustive=True):
+    return dict(suite='text', parts=parts, profile='release', exhaustive=exhaustive,
+                rule='; '.join('%s: %s' % (p, TEXT_RULE[p]) for p in parts))
+
+
 PROPS = {
     'C02': dict(suites=[bdd(['conn', 'quant', 'count', 'fp', 'model', 'retain', 'clean', 'mixed'])]),
+    'C01': dict(suites=[text(['tok', 'parse', 'eval'])]),
+    'C08': dict(suites=[text(['tok', 'parse'])]),
+    'C09': dict(suites=[text(['eval'])]),
     'C03': dict(suites=[bdd(['conn'])]),
     'C04': dict(suites=[bdd(['quant'])]),
-    'C05': dict(suites=[bdd(['count'])]),
-    'C06': dict(suites=[bdd(['fp'])]),
+    'C05': dict(suites=[bdd(['count']), text(['evalc'])]),
+    'C06': dict(suites=[bdd(['fp']), text(['evalfp'], exhaustive=False)]),
     'C07': dict(suites=[bdd(['model'])]),
     'C20': dict(suites=[bdd(['retain'])]),
 }
 
-HOOK_COMMITS = []
+HOOK_COMMITS = ['d9157ce']
 NOT_CLAIMED = {}
 
 NOTE_BDD = ('Trusted: Coq kernel; extraction (ExtrOcamlBasic only) + ocamlopt; the OCaml/Rust/Python glue; the tie between the '
@@ -78,3 +98,20 @@ _t('C07', 'Theorems for all reduced ordered diagrams: model(a) = F iff a is unsa
 _t('C20', 'Theorems for all diagrams: retain with True is implied by f, with False implies f, with Any is f (C20_true/false/any), and the result is reduced, ordered and '
           'mentions only variables of f (C20_shape). Correspondence: all 65 536 functions of 4 variables x 3 filters; on a difference the extracted checker '
           'verdict_retain (sound by verdict_retain_holds) decides whether the real answer still satisfies the property.')
+
+NOTE_TEXT = ('Trusted: Coq kernel; extraction + ocamlopt; OCaml/Rust/Python glue. The lexer model is a hand-written scanner; the regex engine is not modelled, and the '
+             'class (word/digit/other) of each code point >= 128 is supplied per case by the real regex crate. The tie between the Gallina lexer/parser/evaluator and '
+             'src/parser.rs is differential testing (exhaustive over short strings / token sequences, seeded random beyond). References ({name}) always evaluate to false, '
+             'as in every run of the CLI. A diverging fixed point is observed through the rsbdd_verif hook (iteration cap) on the real side and fuel exhaustion in the model.')
+_t('C01', 'Theorems for the whole language (all connectives and spellings via the token table, ite, quantifier lists, the five counting comparisons against constants and lists, '
+          'nested fixed points with shadowing): eval_f n f = Some b implies Den empty f (beval . b) and robdd b (C01_sound); every denotation is reached by eval_f with some fuel '
+          '(C01_complete); hence b = T iff valid and b = F iff unsatisfiable (C01_valid/unsat). Den is the documented semantics written as a Prop-valued recursive function. '
+          'Correspondence: tokenizer, parser and evaluator of src/parser.rs against tokenize/parse/eval_f on ~680k texts per quick run (result diagrams compared structurally, variables by id after the id assignment itself is compared).',
+   NOTE_TEXT)
+_t('C08', 'Theorems: the scanner satisfies the maximal-munch lexing relation Lexes for every text (C08_lex); for every text that tokenizes, parse ts = Ok f iff G_formula ts f for the unambiguous '
+          'closed/open grammar (C08_parse: soundness and completeness, all 32 token kinds, optional trailing commas, right-associative operators without precedence, bodies extending right), and derivations are unique (C08_unique). '
+          'Correspondence: all strings <=4 over a 22-character alphabet (every regex alternation), all keyword/symbol spellings pairwise, all token sequences <=3 over 36 tokens and 4 over 20, plus random and mutated texts; any accept/reject or tree difference is itself a failing input because the model verdict is the grammar verdict.',
+   NOTE_TEXT)
+_t('C09', 'Theorems: var_is_free f x holds iff x has an occurrence not enclosed by a binder of x (C09_free, over the explicit occurrence list occ f), and the support of the evaluated diagram is included in the free variables (C09_support, proved semantically via independence and essentiality of support variables). '
+          'vars/free_vars as computed by new_with_env are modelled in Cli/Pipeline.v (sorted, duplicate-free, free = filter var_is_free). Correspondence: vars, free_vars and the support of the real result on every S-eval case (binder-only names, shadowing, names both bound and free).',
+   NOTE_TEXT)
